@@ -20,7 +20,7 @@ def _one(args):
     prop, diff, tmp, i = args
     head = open(diff).readline().strip()
     benign = head.startswith("# benign")
-    expect = head.split("expect:")[1].strip() if "expect:" in head else None
+    expect = (head.split("expect:")[1].split() or [None])[0] if "expect:" in head else None
     work = os.path.join(tmp, "repo%d" % i)
     subprocess.check_call(["rsync", "-a", "--exclude", "target", "--exclude", ".git", factsmod.REPO.rstrip("/") + "/", work + "/"])
     r = subprocess.run(["git", "apply", "--whitespace=nowarn", diff], cwd=work, capture_output=True, text=True)
